@@ -302,9 +302,9 @@ func (s *seq) NumMutationsComparedToReferenceSequence(alphabet int, refseq Seque
 				return
 			}
 		} else {
-			eq = (s.sequence[i] == refseq.SequenceChar()[i])
+			eq = (uint8(unicode.ToUpper(rune(s.sequence[i]))) == uint8(unicode.ToUpper(rune(refseq.SequenceChar()[i]))))
 		}
-		if s.SequenceChar()[i] != GAP && s.SequenceChar()[i] != all && !eq {
+		if s.SequenceChar()[i] != GAP && uint8(unicode.ToUpper(rune(s.SequenceChar()[i]))) != all && !eq {
 			nummutations++
 		}
 	}
@@ -360,7 +360,7 @@ func (s *seq) listMutationsComparedToReferenceSequence(alphabet int, refseq Sequ
 				return
 			}
 		} else {
-			eq = (s.sequence[i] == refseqchar[i])
+			eq = (uint8(unicode.ToUpper(rune(s.sequence[i]))) == uint8(unicode.ToUpper(rune(refseqchar[i]))))
 		}
 
 		if refseqchar[i] == GAP {
@@ -372,7 +372,7 @@ func (s *seq) listMutationsComparedToReferenceSequence(alphabet int, refseq Sequ
 				mutations = append(mutations, Mutation{Ref: '-', Pos: refi, Alt: curinsert})
 				curinsert = make([]uint8, 0)
 			}
-			if s.sequence[i] != all && !eq {
+			if uint8(unicode.ToUpper(rune(s.sequence[i]))) != all && !eq {
 				mutations = append(mutations, Mutation{Ref: refseqchar[i], Pos: refi, Alt: []uint8{s.sequence[i]}})
 			}
 		}
